@@ -341,6 +341,11 @@ fn excluded_by_known_finding(p: Prop, w: &mut World, o: &Op, known_open: &dyn Fn
             }
         }
     }
+    // KF-C07-2: a copied / moved element keeps its element type even where the destination prescribes another type for that
+    // name (ELEMENTS of a package copied into a DIAGNOSTIC-CONTRIBUTION-SET): the written file does not validate
+    if known_open("structure:element-type-differs-from-specification") && crate::c07::copy_keeps_foreign_type(w, o) {
+        return Some("KF-C07-2");
+    }
     // KF-C10-1: remove_from_file on the ROOT element
     if o.code == op::REMOVE_FROM_FILE && known_open("root-element-removed-from-a-file") {
         if let Some((eid, _fi)) = w.peek_elem_file(o) {
